@@ -1005,10 +1005,19 @@ fn case_strategy() -> impl Strategy<Value = Case> {
             // padding is generated only where names are matched after trimming (header selection with
             // positional targets); map keys / struct fields use the header text as it is
             let name_keyed = matches!(target, Target::StructA | Target::StructB | Target::MapData | Target::HashMapData | Target::MapString);
+            // a column whose header cell is blank (empty or white space only) somewhere among the
+            // named ones: selections by name must still hit the right columns
+            const BLANK: &str = "\u{0}blank";
+            if !name_keyed && knobs % 4 == 1 {
+                cols.insert((knobs as usize / 4) % (cols.len() + 1), BLANK.to_string());
+            }
             let header: Vec<BoxedStrategy<CellV>> = cols
                 .iter()
                 .map(|n| {
                     let n = n.clone();
+                    if n == BLANK {
+                        return prop_oneof![Just(CellV::Empty), Just(CellV::Str("  ".into())), Just(CellV::Str(String::new()))].boxed();
+                    }
                     prop_oneof![
                         6 => Just(CellV::Str(n.clone())),
                         2 => Just(CellV::Str(if name_keyed { n.clone() } else { format!(" {n}  ") })),
@@ -1019,7 +1028,7 @@ fn case_strategy() -> impl Strategy<Value = Case> {
             let body_cols: Vec<BoxedStrategy<CellV>> = cols.iter().enumerate().map(|(i, n)| cell_for(hint_for(target, n, i))).collect();
             let body = proptest::collection::vec(body_cols, height..=height);
             let cfg = {
-                let cols2 = cols.clone();
+                let cols2: Vec<String> = cols.iter().filter(|c| *c != BLANK).cloned().collect();
                 let is_struct = matches!(target, Target::StructA | Target::StructB);
                 let is_map = matches!(target, Target::MapData | Target::HashMapData | Target::MapString);
                 let custom = (proptest::sample::subsequence(cols2.clone(), 0..=cols2.len()), any::<[u8; 4]>(), 0u8..12).prop_map(move |(mut sel, sh, miss)| {
